@@ -235,6 +235,16 @@ func (b *Bridge) Handle(ctx context.Context, _ *http.Client, req *http.Request) 
 	if err := ctx.Err(); err != nil {
 		return nil, err
 	}
+	// net/http's transport refuses to send a header value with control characters; so does the bridge
+	for k, vs := range req.Header {
+		for _, v := range vs {
+			for i := 0; i < len(v); i++ {
+				if c := v[i]; (c < 0x20 && c != '\t') || c == 0x7f {
+					return nil, fmt.Errorf("net/http: invalid header field value for %q", k)
+				}
+			}
+		}
+	}
 	if b.Fault != nil {
 		if err := b.Fault(sr); err != nil {
 			b.mu.Lock()
